@@ -8,12 +8,14 @@ package corerad
 import (
 	"encoding/json"
 	"errors"
+	"fmt"
 	"io"
 	"log"
 	"math"
 	"net"
 	"net/http/httptest"
 	"net/netip"
+	"os"
 	"strings"
 	"testing"
 	"time"
@@ -86,7 +88,20 @@ func TestVF_Observe(t *testing.T) {
 	for _, v := range vfReadLines(in) {
 		// flushed marker: if a collector goroutine kills the process this is the vector in progress
 		rec.emit("reset", "id", vfStr(v, "id", ""))
-		res := vfObserve(v)
+		// a scrape or request that does not come back within 20 s of real time is blocked (nothing here waits for
+		// anything but locks): the process is ended as a hang of the code under test
+		resC := make(chan map[string]any, 1)
+		go func() { resC <- vfObserve(v) }()
+		var res map[string]any
+		select {
+		case res = <-resC:
+		case <-time.After(20 * time.Second):
+			rec.mu.Lock()
+			rec.w.Flush()
+			rec.mu.Unlock()
+			fmt.Printf("VF-HANG scenario=%s\n", vfStr(v, "id", ""))
+			os.Exit(3)
+		}
 		o := map[string]any{"ev": "obs", "kind": "obs", "id": vfStr(v, "id", ""), "out": res, "doc": v["doc"], "sys": v["sys"],
 			"lifecycle": vfStr(v, "lifecycle", "up"), "fwderr": vfBool(v, "fwderr", false),
 			"autoerr": vfBool(v, "autoerr", false)}
@@ -131,6 +146,12 @@ func vfObserve(v map[string]any) (res map[string]any) {
 		}
 		now := vfObsEpoch.Add(time.Duration(vfInt(sys, "clock", 0)) * time.Second)
 		afail, rfail := vfBool(sys, "addrfail", false), vfBool(sys, "routefail", false)
+		// While a scrape or an API request is in the middle of building an RA (inside a wildcard plugin's listing),
+		// another interface (re)initialises: its plugins are prepared. Neither may block the other.
+		reinit := func() {
+			var other plugin.LLA
+			_ = other.Prepare(&net.Interface{Name: "vfx", Index: 99, HardwareAddr: net.HardwareAddr{2, 0, 0, 0, 0, 99}})
+		}
 		for idx, ifi := range cfg.Interfaces {
 			var hw net.HardwareAddr
 			if vfBool(sys, "mac", true) {
@@ -143,6 +164,7 @@ func vfObserve(v map[string]any) (res map[string]any) {
 				case *plugin.Prefix:
 					p.TimeNow = func() time.Time { return now }
 					p.Addrs = func() ([]system.IP, error) {
+						reinit()
 						if afail {
 							return nil, errors.New("vf: listing failed")
 						}
@@ -150,6 +172,7 @@ func vfObserve(v map[string]any) (res map[string]any) {
 					}
 				case *plugin.RDNSS:
 					p.Addrs = func() ([]system.IP, error) {
+						reinit()
 						if afail {
 							return nil, errors.New("vf: listing failed")
 						}
